@@ -145,6 +145,23 @@ def d3_actions(facts, rep):
         clr = calls_named(fn, ('clear_post_resume_action',))
         ok, wit = every_path_passes(fn, 'entry', lambda p, e: p in set(c[0] for c in clr))
         rep.ob('D3', 'K3', fn, 'the action is cleared on every path', ok and bool(clr), 'a stale action is executed again after the next stack switch: ' + wit)
+        # hand-back to the owner: the recall flag is raised BEFORE the owner (possibly asleep in coroutine_waiter::pause on
+        # the waiting-threads monitor) is notified; notifying first lets the owner re-check an unset flag and go back to
+        # sleep, and the later flag store wakes nobody
+        rc = calls_named(fn, ('recall_owner',))
+        mon = set(c[1] for c in calls_named(fn, ('get_waiting_threads_monitor',)))
+        nt = [c for c in calls_named(fn, ('notify', 'notify_one', 'notify_all', 'notify_relaxed')) if fn.subtree(c[2].get('obj', -1)) & mon]
+        if not rc or not nt:
+            raise AnalysisBroken('do_post_resume_action: recall_owner / waiting-threads-monitor notification not found')
+        rcp = set(c[0] for c in rc)
+        ok2 = all(every_path_passes(fn, 'entry', lambda p, e: p in rcp, end=c[0])[0] for c in nt)
+        rep.ob('D3', 'K4', fn, 'the owner\'s recall flag is raised before the waiting-threads monitor is notified', ok2,
+               'notify-then-flag: the owner can wake, find the flag still unset, sleep again and never be told: the suspended code is '
+               'never continued', ln=nt[0][2]['ln'])
+    for fn in facts.get(R1 + 'suspend_point_type::recall_owner'):
+        st = [(p_, o) for p_, o in atomic_ops(fn) if o['kind'] in ('store', 'rmw') and last_member(fn, o['obj']) == 'm_is_owner_recalled']
+        rep.ob('D3', 'K1', fn, 'recall_owner publishes the flag with release (or stronger)', bool(st) and all(has_release(o['order'] or 0) for _, o in st),
+               ', '.join(oname(o['order']) for _, o in st))
     # set before every stack switch that relies on it
     for pname, switch in ((R1 + 'task_dispatcher::recall_point', ('internal_suspend',)), (SP + 'resume_task::execute', ('resume', 'wait')),
                           (R1 + 'task_dispatcher::co_local_wait_for_all', ('resume',))):
